@@ -173,7 +173,8 @@ CHECKS = {
             "bounded-time statements: every primary client call returns within 10 s (measured normal: < 10 ms; up to 1.1 s while a healthy replica sits in its 1 s reconnect back-off, see notes), the faulty session leaves GetNodeInfo within 10 x the configured heartbeat timeout after the workload, healthy replicas converge within 60 s + 3 s per 100 steps",
             "faults are injected at application / TCP-proxy level on loopback: 'cut without FIN' = a user-space proxy that stops reading and forwarding while all sockets stay open; packet loss below TCP is not modelled",
             "clause 2 (dropped from the topology) is judged for replicas that are gone or silent for good (never reads, blackholed, reset, never acknowledges); a slow but live replica is observed only",
-            "primary, replicas and fault injectors run in one child process; engines use a 64 MiB memtable so that no log rotation happens (rotation is C14's open finding D18)",
+            "primary, replicas and fault injectors run in one child process; engines use a 64 MiB memtable so that no log rotation happens WHILE the replication primary runs (rotation is C14's open finding D18)",
+            "pre-history cases (about 40 %): the primary's directory lived an earlier lifetime (1-3 rounds of writes + flush = log rotation, clean close, reopen, at most 60 log entries) before the replication primary starts, so its log directory holds older files and the retention pass run from every Acknowledge has work; every healthy replica connects before the first replicated write and has applied the whole pre-history before anything is acknowledged - a replica that still needed a file removed by retention could only be served by a bootstrap, which is outside the property; the quiet-blackhole class gets no pre-history while the stalled_tcp finding is open",
             "the verdict depends on goroutine and network scheduling; a saved case is re-executed 3 times side by side by the replay tier",
         ],
     },
